@@ -22,6 +22,7 @@ import (
 	"sync"
 	"sync/atomic"
 	"testing"
+	"testing/cryptotest"
 	"testing/synctest"
 	"time"
 )
@@ -516,6 +517,9 @@ func Main(t *testing.T) {
 		os.Exit(0)
 	}
 	runtime.GosimAllBlockingIdle()
+	// crypto/rand (chunk encryption keys, key generation, kademlia random subsets)
+	// becomes one seeded stream; its consumption order is the seeded schedule.
+	cryptotest.SetGlobalRandom(t, mix(plan.Seed, 4))
 	synctest.Test(t, func(t *testing.T) {
 		execInBubble(w, plan, *fTrace)
 	})
